@@ -501,6 +501,135 @@ func (sc srcConsts) term(id int) string {
 	return fmt.Sprintf("CConst %d %s %s %s %d %d %d %d %d %d %d %d", id, l(1), l(2), l(3), ad(1), ad(2), ad(3), sc.Lead, sc.Minute, sc.Clock, sc.PtsBits, sc.Next)
 }
 
+// probeConsts derives the schedule constants from the BEHAVIOUR of scte35.CreateEmsgAhead: one-second
+// segments (s, s+1] over three minutes with timescale 1 (and 90000 as a cross-check) for N = 1, 2, 3.
+// offsets = presentation time mod 60 of the events; lead = presentation time - end of the carrying
+// one-second segment (the announce instant); ad duration from the emsg; minute = distance of the events
+// of one offset; clock = pts_time per second (read from the section with the harness's parser); PTS
+// modulus from a splice after 2^33/90000 s; next = the splice a segment that starts at 53..59 s of a
+// minute and reaches into the next one announces, relative to the start of its minute (0: none).
+func probeConsts() (srcConsts, []string) {
+	pc := srcConsts{Offsets: map[int][]int64{}, AdDur: map[int]int64{}}
+	var problems []string
+	call := func(s, e, ts uint64, n int) (ev *obs) {
+		defer func() {
+			if r := recover(); r != nil {
+				ev = nil
+			}
+		}()
+		em, err := scte35.CreateEmsgAhead(s, e, ts, n)
+		if err != nil || em == nil {
+			return nil
+		}
+		o := obsOfEmsg(em)
+		return &o
+	}
+	for n := 1; n <= 3; n++ {
+		for _, ts := range []uint64{1, 90000} {
+			var offs []int64
+			seenOff := map[int64][]int64{}
+			var lead, dur int64 = -1, -1
+			for s := uint64(60); s < 240; s++ {
+				ev := call(s*ts, (s+1)*ts, ts, n)
+				if ev == nil {
+					continue
+				}
+				sec := int64(ev.PT / ts)
+				off := sec % 60
+				if sec >= 120 && sec < 180 {
+					offs = append(offs, off) // the events of the minute 120..179 s
+				}
+				seenOff[off] = append(seenOff[off], sec)
+				l := sec - int64(s+1)
+				if lead >= 0 && l != lead {
+					problems = append(problems, fmt.Sprintf("probe N=%d ts=%d: announce lead %d s and %d s", n, ts, lead, l))
+				}
+				lead = l
+				dur = int64(uint64(ev.Dur) / ts)
+				if ts == 1 && pc.Clock == 0 {
+					if sec0, err := parseSection(ev.Data); err == nil && sec0.TimeSpecified == 1 && sec > 0 {
+						pc.Clock = int64(sec0.PtsTime) / sec
+					}
+				}
+			}
+			// offsets in the order of the minute 120..179 s
+			sort.Slice(offs, func(i, k int) bool { return offs[i] < offs[k] })
+			for _, secs := range seenOff {
+				for i := 1; i < len(secs); i++ {
+					if d := secs[i] - secs[i-1]; pc.Minute == 0 {
+						pc.Minute = d
+					} else if d != pc.Minute {
+						problems = append(problems, fmt.Sprintf("probe N=%d ts=%d: events of one offset %d s and %d s apart", n, ts, pc.Minute, d))
+					}
+				}
+			}
+			if ts == 1 {
+				pc.Offsets[n], pc.AdDur[n], pc.Lead = offs, dur, lead
+			} else if fmt.Sprint(offs) != fmt.Sprint(pc.Offsets[n]) || dur != pc.AdDur[n] || lead != pc.Lead {
+				problems = append(problems, fmt.Sprintf("probe N=%d: timescale 1 gives offsets %v duration %d lead %d, timescale 90000 gives %v %d %d", n, pc.Offsets[n], pc.AdDur[n], pc.Lead, offs, dur, lead))
+			}
+		}
+	}
+	// the next minute's first splice announced from a segment that starts in this minute
+	for s := uint64(113); s < 120; s++ {
+		if ev := call(s, s+10, 1, 1); ev != nil && ev.PT >= 120 {
+			next := int64(ev.PT) - 60
+			if pc.Next != 0 && pc.Next != next {
+				problems = append(problems, fmt.Sprintf("probe: next-minute candidate %d and %d", pc.Next, next))
+			}
+			pc.Next = next
+		}
+	}
+	// PTS modulus: the first scheduled splice after 2^33/90000 s
+	if len(pc.Offsets[1]) == 1 && pc.Lead > 0 && pc.Clock > 0 {
+		k := (uint64(1)<<33/uint64(pc.Clock)/60+1)*60 + uint64(pc.Offsets[1][0])
+		a := k - uint64(pc.Lead)
+		if ev := call(a-1, a, 1, 1); ev != nil {
+			if sec0, err := parseSection(ev.Data); err == nil {
+				for b := int64(40); b >= 20; b-- { // the largest modulus that explains the wrapped value
+					if sec0.PtsTime == (k*uint64(pc.Clock))%(uint64(1)<<uint(b)) && sec0.PtsTime != k*uint64(pc.Clock) {
+						pc.PtsBits = b
+						break
+					}
+				}
+			}
+		}
+	}
+	return pc, problems
+}
+
+// reconcileConsts: the constants handed to the model come from the probe; the syntactic reading of the
+// source is a cross-check - a constant it cannot find is a note, a constant it finds with another
+// value than the behaviour shows is reported.
+func reconcileConsts(probe, src srcConsts) (notes, conflicts []string) {
+	cmp := func(name string, pv, sv int64) {
+		switch {
+		case sv == 0:
+			notes = append(notes, fmt.Sprintf("constant %s not found syntactically in pkg/scte35/scte35.go: taken from the probe (%d)", name, pv))
+		case sv != pv:
+			conflicts = append(conflicts, fmt.Sprintf("constant %s: the source reads %d, the behaviour of CreateEmsgAhead shows %d", name, sv, pv))
+		}
+	}
+	cmp("announce lead", probe.Lead, src.Lead)
+	cmp("seconds per minute", probe.Minute, src.Minute)
+	cmp("PTS clock", probe.Clock, src.Clock)
+	cmp("PTS modulus bits", probe.PtsBits, src.PtsBits)
+	cmp("next minute's first splice", probe.Next, src.Next)
+	for n := 1; n <= 3; n++ {
+		if so, ok := src.Offsets[n]; !ok || len(so) == 0 {
+			notes = append(notes, fmt.Sprintf("splice offsets for N=%d not found syntactically: taken from the probe %v", n, probe.Offsets[n]))
+		} else if fmt.Sprint(so) != fmt.Sprint(probe.Offsets[n]) {
+			conflicts = append(conflicts, fmt.Sprintf("splice offsets for N=%d: the source reads %v, the behaviour shows %v", n, so, probe.Offsets[n]))
+		}
+		sd, ok := src.AdDur[n]
+		if !ok {
+			sd = src.AdDurDef
+		}
+		cmp(fmt.Sprintf("ad duration for N=%d", n), probe.AdDur[n], sd)
+	}
+	return
+}
+
 // ---------------------------------------------------------------- derived assets
 
 func copyFile(src, dst string) error {
@@ -1131,13 +1260,23 @@ func runC13(c *lib.Ctx) error {
 	// ------------------------------------------------------------ 0. the constants in the source
 	{
 		sc := readSrcConsts()
+		pc, pproblems := probeConsts()
 		idn, id := r.id()
-		c.Res.Inputs[id] = map[string]any{"kind": "consts", "file": filepath.Join(repoRoot(), "pkg/scte35/scte35.go"), "read": sc}
-		c.Count("source-constants")
+		in := map[string]any{"kind": "consts", "file": filepath.Join(repoRoot(), "pkg/scte35/scte35.go"), "probed": pc, "read_from_source": sc}
+		c.Res.Inputs[id] = in
+		c.Count("schedule-constants")
 		for _, p := range sc.Problems {
-			c.Res.Notes = append(c.Res.Notes, "constants of CreateEmsgAhead: "+p)
+			c.Res.Notes = append(c.Res.Notes, "constants of CreateEmsgAhead (syntactic reading): "+p)
 		}
-		r.terms = append(r.terms, sc.term(idn))
+		for _, p := range pproblems {
+			c.Fail(id, "constants:probe-inconsistent", p, in)
+		}
+		notes, conflicts := reconcileConsts(pc, sc)
+		c.Res.Notes = append(c.Res.Notes, notes...)
+		for _, p := range conflicts {
+			c.Fail(id, "constants:source-differs-from-behaviour", p, in)
+		}
+		r.terms = append(r.terms, pc.term(idn)) // the model's constants are compared with the probed ones
 	}
 	scale := 1
 	if c.Thorough() {
@@ -1908,7 +2047,12 @@ func replayC13(c *lib.Ctx) error {
 		}
 	case "consts":
 		sc := readSrcConsts()
-		fmt.Printf("replay C13: constants read from %s: %+v\n", filepath.Join(repoRoot(), "pkg/scte35/scte35.go"), sc)
+		pc, pp := probeConsts()
+		fmt.Printf("replay C13: constants probed from CreateEmsgAhead: %+v %v\nread from %s: %+v\n", pc, pp, filepath.Join(repoRoot(), "pkg/scte35/scte35.go"), sc)
+		_, conflicts := reconcileConsts(pc, sc)
+		for _, p := range conflicts {
+			c.Fail("replay", "constants:source-differs-from-behaviour", p, kind)
+		}
 	case "derived-mpd":
 		root, cleanup, err := lib.ScratchDir("c13replay")
 		if err != nil {
